@@ -15,8 +15,13 @@ Import ListNotations.
 Open Scope Q_scope.
 
 (** ---- list helpers ---------------------------------------------------------------- *)
+(** addition with the result in lowest terms: the same rational number as x + y ([qadd_eq], Proofs/Stats.v);
+    keeps the numerals short when the model is executed on the doubles of a case file *)
+Definition qadd (x y : Q) : Q := Qred (x + y).
+Arguments qadd : simpl never.
+
 Fixpoint qsum (l : list Q) : Q :=
-  match l with [] => 0 | x :: l' => x + qsum l' end.
+  match l with [] => 0 | x :: l' => qadd x (qsum l') end.
 
 Definition qlen {A} (l : list A) : Q := inject_Z (Z.of_nat (length l)).
 
